@@ -8,6 +8,7 @@ import PcfgVerif.Drive.Reader
 import PcfgVerif.Drive.Probs
 import PcfgVerif.Drive.OmenTrainer
 import PcfgVerif.Drive.Session
+import PcfgVerif.Drive.Detect
 /-! Line-protocol driver: one operation per input line, one canonical answer line each. -/
 
 structure DState where
@@ -20,6 +21,7 @@ structure DState where
   rd : Drive.Reader.St := {}
   ot : Drive.OmenTrainer.St := {}
   ss : Drive.Session.St := {}
+  dt : Drive.Detect.St := {}
 
 def dispatch (s : DState) (line : String) : DState × String :=
   let toks := (line.splitOn " ").filter (· ≠ "")
@@ -54,6 +56,9 @@ def dispatch (s : DState) (line : String) : DState × String :=
     else if cmd.startsWith "ss." then
       let (p, out) := Drive.Session.step s.ss toks
       ({ s with ss := p }, out)
+    else if cmd.startsWith "dt." then
+      let (p, out) := Drive.Detect.step s.dt toks
+      ({ s with dt := p }, out)
     else (s, "bad-op")
 
 partial def loop (h : IO.FS.Stream) (out : IO.FS.Stream) (s : DState) : IO Unit := do
